@@ -255,9 +255,12 @@ def run(ctx: Ctx):
             ctx.violation({"check": "gemdata", "clause": v["clause"], "input": st_["inp"]["k"], "request": st_["inp"],
                            "observed": st_["obs"], "allowed": v["allowed"], "inputs": [s_["inp"] for s_ in r_["steps"][: v["at"]]][-6:],
                            "what": f"{json.dumps(st_['inp'])}: {v['clause']}; observed {json.dumps(st_['obs'])[:300]}"})
+    from . import c13_clock
+    c13_clock.check(ctx, wd, pmap)
     ctx.rule = ("histories = random walks of 40 requests over the monitor alphabet (121 requests: id lists incl. unknown/repeated/"
                 "text ids, constants below/at/inside/above bounds, alarm enable/list/set/clear, value updates); thorough adds walks "
-                "covering the complete transition relation; non-trivial = distinct (request, observation) with content")
-    ctx.assumptions += ["predefined SVs/ECs (clock, ...) are masked except AlarmsEnabled / AlarmsSet and EstablishCommunicationsTimeout; 2 user SVs, "
+                "covering the complete transition relation; non-trivial = distinct (request, observation) with content; "
+                "predefined Clock variable: S1F3 at frozen equipment-clock instants (sub-second parts at and around every digit boundary, 5 dates) x TimeFormat 0/1/2 set through S2F15, each reply decided by ClockJudge")
+    ctx.assumptions += ["in the history walks predefined SVs/ECs are masked except AlarmsEnabled / AlarmsSet and EstablishCommunicationsTimeout (Clock / TimeFormat: separate leg); 2 user SVs, "
                         "4 ECs (bounded, unbounded, predefined settings-backed, application-callback-backed), 2 alarms"]
     return ctx.finish()
